@@ -34,6 +34,8 @@ def jobs():
         jobs_api.register(_JOBS)
         from . import jobs_writer
         jobs_writer.register(_JOBS)
+        from . import jobs_options
+        jobs_options.register(_JOBS)
         from . import jobs_rfwc
         jobs_rfwc.register(_JOBS)
         names = [j.name for j in _JOBS]
@@ -217,3 +219,17 @@ prop("C14", "model_checking",
      "Bounded text lengths (scaled BUFSIZ); getline's own growth and 1 MiB inputs are libc / not explored; "
      "util/econftool.c replace_str is C19.", "CBMC bounded symbolic execution with BUFSIZ scaled down (side-car "
      "#define) + bounds checks on allocation-size arithmetic", "6 C14")
+
+prop("C15", "model_checking",
+     "PYTHON_STYLE: parser scenarios with the flag set: every indented line (any printable text incl. delimiters, "
+     "comment characters, quotes) after an entry appends newline + the text without its indentation to the previous "
+     "value and adds no key; entry lines keep trailing comment characters in the value. JOIN_SAME_ENTRIES: the "
+     "static join_same_entries() is called directly on three entries (symbolic keys, 64 value shapes) against the "
+     "statement's value-list semantics. Option strings: econf_newKeyFile_with_options on every sequence of <= 2 "
+     "(quick: selected, incl. triples) catalogue items - documented, repeated with other arguments, unknown, "
+     "misspelt - with CBMC's memory-leak check.",
+     "Bounded: indented line <= 7 bytes; option catalogue of 12 items (concrete strings: the tokenizer's loops need "
+     "constant propagation); join on 3 entries with 4 value kinds; the parser+join composition is not run as one job "
+     "(does not fit). Trusted: strsep/asprintf models.",
+     "CBMC bounded symbolic execution: parser scenarios with PYTHON_STYLE, join_same_entries in isolation, option "
+     "tokenizer over an item catalogue", "6 C15")
